@@ -303,6 +303,10 @@ def check_extraction(ctx, res: Result, dotted, _seen=None, delegated: bool = Fal
             names = {x.id for x in ast.walk(rarg) if isinstance(x, ast.Name)} if rarg is not None else set()
             ok = "self.get_nodes()" in rtxt or "self._adj" in rtxt or "self._node_metadata" in rtxt or bool(names & (params - {"self"}))
             other_query = any(isinstance(x, ast.Call) and isinstance(x.func, ast.Attribute) and isinstance(x.func.value, ast.Name) and x.func.value.id == "self" and not x.func.attr.startswith("_") and x.func.attr != "get_nodes" for x in ast.walk(rarg)) if rarg is not None else False
+            # a parameter counts as "the requested node list" only when it IS the node set; as an argument of another query of the
+            # source (`self.isolated_nodes(size=size)`) it selects among the nodes
+            if ok and other_query and not ("self.get_nodes()" in rtxt or "self._adj" in rtxt or "self._node_metadata" in rtxt):
+                ok = False
             bad = not ok and (f"{ev.hname}." in rtxt or "edge" in rtxt.lower() or other_query)
             res.add("X-NODES", cv.fi.short, norm(c), "all-nodes", "ok" if ok else ("violation" if bad else "unknown"), "" if ok else f"the extract receives `{txt}` as its node set instead of all nodes of the source: nodes that have hyperedges, but none in the selection, are lost", loc(cv.fi, c))
         # (N) node metadata: every node-creating call is followed by a transfer loop over the extract's nodes (or over
@@ -373,7 +377,17 @@ def check_extraction(ctx, res: Result, dotted, _seen=None, delegated: bool = Fal
                 # a hyperedge can bring new nodes) is the helper's
                 lp_ = ev.view.enclosing(c, (ast.For,))
                 pn_ = {a_.arg for a_ in ev.view.fi.params} - {"self"}
-                if ev.meth in ("add_edge", "add_edges") and lp_ is not None and isinstance(lp_.iter, ast.Call) and not is_self_attr(lp_.iter.func) and any(isinstance(x, ast.Name) and x.id in pn_ for a_ in list(lp_.iter.args) + [k.value for k in lp_.iter.keywords] for x in ast.walk(a_)):
+                if lp_ is None and ev.view is not v:
+                    # the insertion sits in a helper (`self._reinsert_edge(h, edge)`): the loop that selects is the extractor's
+                    lp_ = v.enclosing(ev.at, (ast.For,))
+                    pn_ = {a_.arg for a_ in v.fi.params} - {"self"}
+
+                def _selection_helper(fn_):
+                    # a function of the module, or a PRIVATE method of the source (`self._edges_within(nodes)`); the public queries
+                    # (`self.get_edges(...)`) select by order / size, never by the requested nodes
+                    return not is_self_attr(fn_) or fn_.attr.startswith("_")
+
+                if ev.meth in ("add_edge", "add_edges") and lp_ is not None and isinstance(lp_.iter, ast.Call) and _selection_helper(lp_.iter.func) and any(isinstance(x, ast.Name) and x.id in pn_ for a_ in list(lp_.iter.args) + [k.value for k in lp_.iter.keywords] for x in ast.walk(a_)):
                     res.unknown("X-NMETA", ev.view.fi.short, norm(c), "after-transfer", "the inserted hyperedges are selected by a helper that receives the requested nodes; whether they can bring new nodes is not decided here", loc(ev.view.fi, c))
                     continue
                 res.violation("X-NMETA", ev.view.fi.short, norm(c), "after-transfer", "nodes are added to the extract after (or without) the node-metadata transfer: they keep empty metadata", loc(ev.view.fi, c))
